@@ -39,7 +39,14 @@ def gen_case(rng, tier):
         bad = ('PZBAD',) + rng.choice([(gs - 3, gs + 2), (ge - 1, ge + 2), (ge + 1, ge + 4), (-5, 3), (gs - 2, gs - 1), (ge - 1, ge + 2)])
         # listed in front of, or behind, the GLOBAL entry
         cfg['preZones'].insert(rng.choice([0, len(cfg['preZones'])]), bad)
-    if rng.random() < 0.5:
+    front_gadget = False
+    if rng.random() < 0.05 and not any(z[0] in ('GLOBAL', 'PZBAD') for z in cfg['preZones']) and not cfg.get('origin'):
+        # a zone that hangs over the end of a narrowed GLOBAL (inside the address width), listed IN FRONT OF the GLOBAL entry
+        ge = ((1 << cfg['bits']) - 1) // 2 + rng.randint(0, 20)
+        cfg['preZones'] = [('PZBAD', ge - rng.randint(0, 3), ge + rng.randint(1, 4))] + \
+            [z for z in cfg['preZones'] if z[2] <= ge] + [('GLOBAL', 0, ge)]
+        front_gadget = True
+    if rng.random() < 0.5 and not front_gadget:
         # the order of the entries of `predefined.memory_zones` carries no meaning (GLOBAL first, last or in between)
         zs = list(cfg['preZones'])
         rng.shuffle(zs)
